@@ -1,5 +1,6 @@
 import Dnp3.Props.C07Base
 import Dnp3.Proofs.LinkLayerHist
+import Dnp3.Props.C07App
 /-!
 # C07 — history-level theorems (every list of link headers)
 -/
